@@ -87,7 +87,50 @@ the function's value; a function that fails (`Err`) reports none (the cells writ
 only read through handles that exist after a success). -/
 abbrev Stores := List (String × UInt64)
 
+/-- `result::InvalidPassword` -/
+structure InvalidPassword where
+  deriving DecidableEq, Repr
+
+/-! ### The decryption layers as SYMBOLIC values
+
+`make_crypto_reader` decides which layer is put on the entry's `Take`.  The layers themselves (`ZipCryptoReaderValid`,
+`AesReaderValid`) are translated / modelled elsewhere; here a validated layer is the record of what it was built
+from, and what its constructor does to the device - `ZipCryptoReader::new(r, pw).validate(v)` reads the 12-byte
+header, `AesReader::new(r, mode, size).validate(pw)` reads salt and verification value - together with its verdict
+(`Some` = accepted, `None` = wrong password) is an UNINTERPRETED computation `ext.…Validate` of the model's I/O
+monad.  A Tie theorem about a function that takes `ext` holds for every `ext`. -/
+
+/-- `ZipCryptoReaderValid<Take>` as built by `ZipCryptoReader::new(inner, password).validate(validator)` -/
+structure ZcValid (V : Type) where
+  inner : Take
+  password : Bytes
+  validator : V
+
+/-- `AesReaderValid<Take>` as built by `AesReader::new(inner, mode, compressed_size).validate(password)` -/
+structure AesValid (Mo : Type) where
+  inner : Take
+  mode : Mo
+  compressed_size : UInt64
+  password : Bytes
+
+/-- The external constructors: their I/O and their verdict (`true` = `Some(valid reader)`). -/
+structure ReadExt (V Mo : Type) where
+  zcValidate : Take → Bytes → V → M Bool
+  aesValidate : Take → Mo → UInt64 → Bytes → M Bool
+
 namespace R
+variable {V Mo : Type}
+
+/-- `ZipCryptoReader::new(r, pw).validate(v)?` -/
+def zc_validate (ext : ReadExt V Mo) (r : Take) (pw : Bytes) (v : V) : M (Option (ZcValid V)) := do
+  let ok ← ext.zcValidate r pw v
+  pure (if ok then some ⟨r, pw, v⟩ else none)
+
+/-- `AesReader::new(r, mode, size).validate(pw)?` -/
+def aes_validate (ext : ReadExt V Mo) (r : Take) (mode : Mo) (size : UInt64) (pw : Bytes) :
+    M (Option (AesValid Mo)) := do
+  let ok ← ext.aesValidate r mode size pw
+  pure (if ok then some ⟨r, mode, size, pw⟩ else none)
 
 /-- `(reader as &mut dyn Read).take(n)` -/
 def take (n : UInt64) : Take := ⟨n⟩
